@@ -307,8 +307,12 @@ fn two_setters(vals: &[Vec<u8>]) -> i32 {
             return 1;
         }
     }
-    println!("not reproduced: deterministic window consistent, {rounds} racing rounds consistent");
-    0
+    // A schedule that lies between two lock acquisitions cannot be forced through the public API; a
+    // race that was not hit in the time box refutes nothing. Exit code 2 = "replay impossible /
+    // undecided": the driver then reports the solver's counterexample as it is (a replayer's 0 would
+    // demote it to "encoding disagrees with the real code").
+    println!("undecided: deterministic window consistent, {rounds} racing rounds did not hit the schedule");
+    2
 }
 
 /// c05_rejected_push_then_pop: vals = a0,d0,a1,d1 (u64 ranks).
